@@ -132,6 +132,18 @@ func genSpecials() []descCase {
 		{"# see @IMPORTS@ here\ninterface i.f\nmethod M() -> ()\n", "imp=placeholder-and-keyword"},
 		{"interface a.b\ntype RawMessage (a: int)\ntype Sprintf (a: int)\nmethod Context(a: RawMessage, b: Sprintf) -> ()\n", "imp=member-names-mention"},
 		{"interface a.b\n# json.RawMessage\nmethod M() -> ()\n# fmt.Sprintf\nerror E\n", "imp=comment-mentions-fmt-typeless-error"},
+		// former finding, repaired by f1a09c1: the derived package name "documentation" is the one go/build reserves
+		// for doc-only files (it ignores every file of such a package, "build constraints exclude all Go files");
+		// now documentation_. The first label of an interface name has no dash (docu-ment.ation does not parse).
+		{"interface document.ation\nmethod M() -> ()\n", "pkg=documentation"},
+		{"interface document.ation\ntype T (a: ?T, o: object)\nmethod M(t: T, o: object) -> (t: []T)\nerror E (t: T)\nerror F\n", "pkg=documentation"},
+		{"interface Document.Ation\ntype T (a: int)\nmethod M(o: object) -> (s: string)\nerror E (a: int)\n", "pkg=documentation"},
+		{"interface docu.ment-ation\ntype T (a: int)\nmethod M(t: T, o: object) -> (t: T)\nerror E (a: int)\n", "pkg=documentation"},
+		{"interface d.o-c-u.men-tat.i.o.n\nmethod M(o: object) -> ()\nerror E (a: int)\n", "pkg=documentation"},
+		{"# documentation\ninterface DOCUMENT.ATION\nmethod M() -> ()\nerror E\n", "pkg=documentation"},
+		// neighbours that must stay as they are
+		{"interface document.ations\nmethod M(o: object) -> ()\nerror E (a: int)\n", "pkg-near-documentation"},
+		{"interface doc.umentation9\nmethod M() -> ()\n", "pkg-near-documentation"},
 	}
 	out := []descCase{
 		{"interface a.b\nmethod M() -> ()\nerror E (a, b)\n", "x-enum-error"},
@@ -224,8 +236,8 @@ func genSystematicCases() []descCase {
 var genIfaceNames = []string{
 	"org.example.test", "com.Example-x.foo", "a.b", "A.B-c.d9", "io.systemd.Resolve", "org.varlink.certification",
 	"x.y.z", "xn--lgbbat1ad8j.example.algeria", "a.b-c-d", "Ab.Cd.Ef", "org.example.more9", "z.a0",
-	// package name a Go keyword or main, names mentioning what the import detection used to search for
-	"i.f", "ma.in", "Ty.pe", "fmt.Sprintf", "json.RawMessage",
+	// package name a Go keyword, main or documentation; names mentioning what the import detection used to search for
+	"i.f", "ma.in", "Ty.pe", "fmt.Sprintf", "json.RawMessage", "document.ation", "Docu.ment-ation",
 }
 var genMemberNames = []string{
 	"Foo", "Bar", "Baz", "T", "U", "V", "Ping", "GetInfo", "A1", "Zz9", "Item", "State", "Monitor", "Start", "End",
